@@ -73,20 +73,29 @@ def fam_short_after_repeated(tier):
     whose own count is > 1 (merge must not happen, one iteration may be lent)"""
     out = []
     full = dict(ks=(2, 3), lts=(1, 2, 3), lss=(1, 2), lims=[(2, 8), (3, 8), (3, 4), (3, 5), (2, 3)])
-    quick = dict(ks=(2,), lts=(1, 2), lss=(1,), lims=[(2, 8), (3, 4)])
+    quick = dict(ks=(2,), lts=(1, 2), lss=(1,), lims=[])
     p = quick if tier == 'quick' else full
     for k, lt, ls in itertools.product(p['ks'], p['lts'], p['lss']):
         Tt = lambda: T([L(i % 2) for i in range(lt)], r=k)
         S = lambda: T([L((i + 1) % 3) for i in range(ls)], r=1)
         U = lambda: T([L(2), L(0), L(2)], r=1)
+        # limits on the boundaries of `len(short) + len(neighbour) < max_seq_len` and `len(short) < min_seq_len`
+        lims = sorted(set(p['lims']) | {(ls + 1, lt + ls), (ls + 1, lt + ls + 1), (ls + 2, lt + ls + 2), (ls + 1, 8)})
         for pat in ('TS', 'TSU', 'TST', 'UTS', 'ST', 'STS', 'TSS', 'TUS', 'SUT'):
-            for mn, mx in p['lims']:
+            for mn, mx in lims:
+                if mn > mx:
+                    continue
                 tabs = [{'T': Tt, 'S': S, 'U': U}[ch]() for ch in pat]
                 out.append(mk(T(tabs), std_wfs(), min=mn, max=mx, **STD_CFG))
-    # the repeated neighbour is volatile / the short table is volatile (no lending, no merging)
-    for mn, mx in [(2, 8), (3, 4)]:
+    # the repeated neighbour is volatile / the short table is volatile (no merging); a neighbour whose volatile count
+    # is 1 has nothing to lend
+    for mn, mx in [(2, 8), (3, 4), (3, 8)]:
         out.append(mk(T([T([L(0), L(1)], r=2, vol=True), T([L(2)])]), std_wfs(), min=mn, max=mx, **STD_CFG))
         out.append(mk(T([T([L(0), L(1)], r=2), T([L(2)], vol=True)]), std_wfs(), min=mn, max=mx, **STD_CFG))
+        out.append(mk(T([T([L(2)]), T([L(0), L(1)], r=1, vol=True)]), std_wfs(), min=mn, max=mx, **STD_CFG))
+        out.append(mk(T([T([L(0), L(1)], r=1, vol=True), T([L(2)])]), std_wfs(), min=mn, max=mx, **STD_CFG))
+        out.append(mk(T([T([L(0), L(1)], r=1, vol=True), T([L(2)]), T([L(1), L(0)], r=1, vol=True)]), std_wfs(),
+                      min=mn, max=mx, **STD_CFG))
     return out
 
 
